@@ -2,7 +2,7 @@ import FitProps.EndToEndFieldLemmas
 import FitProps.WireLemmas
 /-!
 Bridge between the two decoder models (C01 end to end): wherever the framing decoder of `FitModel/Wire.lean`
-(`decodeRecords`, the object of `C01_wire_records`) parses a record stream into items, the decoder-API model
+(`decodeRecordsF`, the object of `C01_wire_records`) parses a record stream into items, the decoder-API model
 (`Fit.DecApi.decodeMessages`, the object of C03/C07) — run on the same bytes — returns the messages the pure
 interpretation (`interpField` / `interpDev`) of those items gives, provided that interpretation succeeds and agrees
 with the framing decoder on which timestamps it tracks (`GoodItems`; discharged for encoder output in
@@ -590,142 +590,8 @@ theorem takeFields_split : ∀ (fds : List Wire.FieldDef) (bs : List Nat) (fs : 
           · simp; omega
           · exact h3 p hp'
 
-theorem takeDevs_split : ∀ (fds : List Wire.DevDef) (bs : List Nat) (fs : List (Wire.DevDef × List Nat)) (rest : List Nat),
-    Wire.takeDevs fds bs = .ok (fs, rest) →
-    fs.map (·.1) = fds ∧ bs = fs.flatMap (·.2) ++ rest ∧ ∀ p ∈ fs, p.2.length = p.1.size := by
-  intro fds
-  induction fds with
-  | nil =>
-    intro bs fs rest h
-    simp only [Wire.takeDevs, Except.ok.injEq, Prod.mk.injEq] at h
-    obtain ⟨rfl, rfl⟩ := h
-    exact ⟨rfl, rfl, fun p hp => by cases hp⟩
-  | cons fd fds ih =>
-    intro bs fs rest h
-    simp only [Wire.takeDevs] at h
-    split at h
-    · cases h
-    · rename_i hlen
-      cases hp : Wire.takeDevs fds (bs.drop fd.size) with
-      | error e => rw [hp] at h; cases h
-      | ok pr =>
-        obtain ⟨fs', rest'⟩ := pr
-        rw [hp] at h
-        simp only [Except.ok.injEq, Prod.mk.injEq] at h
-        obtain ⟨rfl, rfl⟩ := h
-        obtain ⟨h1, h2, h3⟩ := ih _ _ _ hp
-        refine ⟨by simp [h1], ?_, ?_⟩
-        · simp only [List.flatMap_cons, List.append_assoc, ← h2, List.take_append_drop]
-        · intro p hp'
-          rcases List.mem_cons.mp hp' with rfl | hp'
-          · simp; omega
-          · exact h3 p hp'
-
-/-- what a successful `Wire.decodeRecord` means: a definition record … or a data record under a live definition -/
-theorem wire_record_cases (tsKnown : Nat → Bool) (ds : Wire.DecState) (bs : List Nat) (it : Wire.Item) (ds' : Wire.DecState)
-    (rest : List Nat) (h : Wire.decodeRecord tsKnown ds bs = .ok (it, ds', rest)) :
-    (∃ hd res arch m0 m1 n bs1 fds bs2 dds,
-        bs = hd :: res :: arch :: m0 :: m1 :: n :: bs1 ∧ (hd &&& 0xC0 == 0x40) = true ∧
-        Wire.parseFieldDefs n bs1 = .ok (fds, bs2) ∧ (∀ f ∈ fds, Wire.validBaseType f.bt = true) ∧
-        (if (hd &&& 0x20 == 0x20) = true then ∃ k bs3, bs2 = k :: bs3 ∧ Wire.parseDevDefs k bs3 = .ok (dds, rest)
-          else dds = [] ∧ bs2 = rest) ∧
-        it = .def_ (hd &&& 0xF) ⟨hd, arch, if arch = 0 then m0 + 256 * m1 else m1 + 256 * m0, fds, dds⟩ ∧
-        ds' = { ds with defs := (hd &&& 0xF, ⟨hd, arch, if arch = 0 then m0 + 256 * m1 else m1 + 256 * m0, fds, dds⟩) :: ds.defs }) ∨
-    (∃ hd bs0 wd fs bs1 dvs,
-        bs = hd :: bs0 ∧ (hd &&& 0xC0 == 0x40) = false ∧
-        ds.lookup ((if (hd &&& 0x80 == 0x80) = true then (hd &&& 0x60) >>> 5 else hd) &&& 0xF) = some wd ∧
-        Wire.takeFields wd.fields bs0 = .ok (fs, bs1) ∧ Wire.takeDevs wd.devs bs1 = .ok (dvs, rest) ∧
-        it = .data ⟨hd, wd.mesgNum, wd.arch, if (hd &&& 0x80 == 0x80) = true then some (Wire.decompressHdr ds hd).2 else none, fs, dvs⟩ ∧
-        ds' = Wire.trackTs (tsKnown wd.mesgNum) wd.arch
-          (if (hd &&& 0x80 == 0x80) = true then (Wire.decompressHdr ds hd).1 else ds) fs) := by
-  cases bs with
-  | nil => simp [Wire.decodeRecord] at h
-  | cons hd bs0 =>
-    simp only [Wire.decodeRecord] at h
-    by_cases hdef : (hd &&& 0xC0 == 0x40) = true
-    · left
-      simp only [hdef, ↓reduceIte] at h
-      match bs0, h with
-      | res :: arch :: m0 :: m1 :: n :: bs1, h =>
-        simp only at h
-        cases hp : Wire.parseFieldDefs n bs1 with
-        | error e => rw [hp] at h; cases h
-        | ok pr =>
-          obtain ⟨fds, bs2⟩ := pr
-          rw [hp] at h
-          simp only at h
-          by_cases hinv : (fds.any fun f => !Wire.validBaseType f.bt) = true
-          · simp [hinv] at h
-          · simp only [hinv, Bool.false_eq_true, ↓reduceIte] at h
-            have hval : ∀ f ∈ fds, Wire.validBaseType f.bt = true := by
-              intro f hf
-              cases hv : Wire.validBaseType f.bt
-              · exact absurd (List.any_eq_true.mpr ⟨f, hf, by simp [hv]⟩) hinv
-              · rfl
-            by_cases hdv : (hd &&& 0x20 == 0x20) = true
-            · simp only [hdv, ↓reduceIte] at h
-              match bs2, h with
-              | k :: bs3, h =>
-                simp only at h
-                cases hq : Wire.parseDevDefs k bs3 with
-                | error e => rw [hq] at h; cases h
-                | ok pr2 =>
-                  obtain ⟨dds, bs4⟩ := pr2
-                  rw [hq] at h
-                  simp only [Except.ok.injEq, Prod.mk.injEq] at h
-                  obtain ⟨rfl, rfl, rfl⟩ := h
-                  exact ⟨hd, res, arch, m0, m1, n, bs1, fds, k :: bs3, dds, rfl, hdef, hp, hval,
-                    by simp only [hdv, ↓reduceIte]; exact ⟨k, bs3, rfl, hq⟩, rfl, rfl⟩
-              | [], h => simp at h
-            · simp only [hdv, Bool.false_eq_true, ↓reduceIte, Except.ok.injEq, Prod.mk.injEq] at h
-              obtain ⟨rfl, rfl, rfl⟩ := h
-              exact ⟨hd, res, arch, m0, m1, n, bs1, fds, bs2, [], rfl, hdef, hp, hval,
-                by simp [hdv], rfl, rfl⟩
-      | [], h => simp at h
-      | [_], h => simp at h
-      | [_, _], h => simp at h
-      | [_, _, _], h => simp at h
-      | [_, _, _, _], h => simp at h
-    · right
-      have hdef' : (hd &&& 0xC0 == 0x40) = false := by simpa using hdef
-      simp only [hdef', Bool.false_eq_true, ↓reduceIte] at h
-      cases hl : ds.lookup ((if (hd &&& 0x80 == 0x80) = true then (hd &&& 0x60) >>> 5 else hd) &&& 0xF) with
-      | none => rw [hl] at h; cases h
-      | some wd =>
-        rw [hl] at h
-        simp only at h
-        by_cases hc : (hd &&& 0x80 == 0x80) = true
-        · simp only [hc, ↓reduceIte] at h hl ⊢
-          cases ht : Wire.takeFields wd.fields bs0 with
-          | error e => rw [ht] at h; cases h
-          | ok pr =>
-            obtain ⟨fs, bs1⟩ := pr
-            rw [ht] at h
-            simp only at h
-            cases htd : Wire.takeDevs wd.devs bs1 with
-            | error e => rw [htd] at h; cases h
-            | ok pr2 =>
-              obtain ⟨dvs, bs2⟩ := pr2
-              rw [htd] at h
-              simp only [Except.ok.injEq, Prod.mk.injEq] at h
-              obtain ⟨rfl, rfl, rfl⟩ := h
-              exact ⟨hd, bs0, wd, fs, bs1, dvs, rfl, hdef', by simpa [hc] using hl, ht, htd, by simp [hc], by simp [hc]⟩
-        · have hc' : (hd &&& 0x80 == 0x80) = false := by simpa using hc
-          simp only [hc', Bool.false_eq_true, ↓reduceIte] at h hl ⊢
-          cases ht : Wire.takeFields wd.fields bs0 with
-          | error e => rw [ht] at h; cases h
-          | ok pr =>
-            obtain ⟨fs, bs1⟩ := pr
-            rw [ht] at h
-            simp only at h
-            cases htd : Wire.takeDevs wd.devs bs1 with
-            | error e => rw [htd] at h; cases h
-            | ok pr2 =>
-              obtain ⟨dvs, bs2⟩ := pr2
-              rw [htd] at h
-              simp only [Except.ok.injEq, Prod.mk.injEq] at h
-              obtain ⟨rfl, rfl, rfl⟩ := h
-              exact ⟨hd, bs0, wd, fs, bs1, dvs, rfl, hdef', by simpa [hc'] using hl, ht, htd, by simp [hc'], by simp [hc']⟩
+-- `takeDevs_split` and `wire_record_cases` (about the framing skeleton `decodeRecordF`) live in FitProps/WireLemmas.lean
+open Fit.Wire (takeDevs_split wire_record_cases)
 
 /-! ### simulation between the two decoders' states -/
 
